@@ -563,8 +563,10 @@ def _gen_c20(con, sigcase, count, seed):
         for seq in itertools.product(C20_LEVELS, repeat=n):
             for ol in C20_OUTLINES:
                 texts = tuple(C20_TEXTS[(k + i) % len(C20_TEXTS)] for i in range(n))
+                # the outline level is requested through the constructor or, every other case, through the setter of
+                # a TOC created with another level (0 = no limit must replace an earlier limit)
                 yield {"levels": seq, "texts": texts, "outline": ol, "position": C20_POSITIONS[k % 3],
-                       "title": "Table of Contents"}
+                       "title": "Table of Contents", "via": "setter" if k % 2 else "ctor"}
                 k += 1
     # B: every text assignment (x positions) for all sequences of length <= 2 over levels {1,2,10}
     for n in range(1, 3):
@@ -594,7 +596,11 @@ def _call_c20(con, fn, argvals, labels):
         body.append(h)
         body.append(Paragraph(f"paragraph {i}"))
         want_texts.append(txt)
-    toc = TOC(title=title, outline_level=outline)
+    if argvals.get("via") == "setter":
+        toc = TOC(title=title, outline_level=(1 if outline != 1 else 2))
+        toc.outline_level = outline
+    else:
+        toc = TOC(title=title, outline_level=outline)
     nchildren = len(_raw(body))
     body.insert(toc, position={"start": 0, "middle": nchildren // 2, "end": nchildren}[position])
     rbody = _raw(body)
